@@ -469,6 +469,10 @@ func ruleGLevels(w *World, r *Report) {
 	for i, lv := range levels {
 		key := fmt.Sprintf("level%d", i+1)
 		pos := w.pos(lv.Pos)
+		if w.curProp == "C07" && i >= 4 {
+			// C07 speaks of or, and and the six comparison operators only
+			continue
+		}
 		// spellings recognised -> operator strings
 		got := map[string]string{}
 		for _, o := range lv.Ops {
